@@ -98,7 +98,7 @@ def rand_history(rng):
 
 def gen(rng, tier):
     cases = []
-    count = 300 if tier == "quick" else 5000
+    count = 500 if tier == "quick" else 20000
     for k in range(count):
         cases.append(("udp", "u%d" % k, rand_history(rng)))
     if tier == "thorough":
